@@ -192,6 +192,38 @@ def ob_lemma(ctx: Ctx) -> Outcome:
     return Outcome.refuted("z3", [w], count=1, discharged=0)
 
 
+ZONE_PROBE_CONTENTS = ["x", "", "a  \n\tb\n", "\t```", "\u00a0```", "\x0c````", "```js` is the tag", "  ``` not a fence`", "``", "\\n \\t \"q\"", "e\u0301 -> +", "{a}<b>", "   "]
+
+
+def probe_zone_emission():
+    """concrete zones (content lines that LOOK like fences but are not: indented by tab / NBSP / form feed, a run followed by a
+    later backtick; trailing spaces; escapes; aliases) through emit_assignment / emit_block / emit_value: the exact text is
+    indent + marker + tag / content / indent + marker with the node's own marker. -> (fails, text)"""
+    from octave_mcp.core.ast_nodes import Assignment, Block, LiteralZoneValue
+    from octave_mcp.core.emitter import emit_assignment, emit_block, emit_value
+
+    bad = []
+    for content in ZONE_PROBE_CONTENTS:
+        for marker in ("```", "````"):
+            for tag in (None, "py"):
+                lz = LiteralZoneValue(content=content, info_tag=tag, fence_marker=marker)
+                for ind in (0, 1, 3):
+                    pre = "  " * ind
+                    want = "\n".join([f"{pre}K::", f"{pre}{marker}{tag or ''}"] + ([content] if content else []) + [f"{pre}{marker}"])
+                    got = emit_assignment(Assignment(key="K", value=lz), ind)
+                    if got != want:
+                        bad.append(f"emit_assignment(zone content={content!r} marker={marker!r} tag={tag!r}, indent {ind}) = {got!r}, expected {want!r}")
+                    pre1 = "  " * (ind + 1)
+                    wantb = "\n".join([f"{pre}B:", f"{pre1}{marker}{tag or ''}"] + ([content] if content else []) + [f"{pre1}{marker}"])
+                    gotb = emit_block(Block(key="B", children=[Assignment(key="", value=lz)]), ind)
+                    if gotb != wantb:
+                        bad.append(f"emit_block(bare zone content={content!r} marker={marker!r}, indent {ind}) = {gotb!r}, expected {wantb!r}")
+                gv = emit_value(lz)
+                if not (gv.startswith(marker + (tag or "") + "\n") and gv.endswith(marker) and not gv.endswith("`" + marker) and content in gv):
+                    bad.append(f"emit_value(zone content={content!r} marker={marker!r}) = {gv!r}: not the node's own fence around its content")
+    return bool(bad), "; ".join(bad[:2]) or f"{len(ZONE_PROBE_CONTENTS)} hostile zone contents x 2 markers x 2 tags x 3 indents: exact text"
+
+
 def obligations(ctx: Ctx):
     P = PROPERTY
     obs = [
@@ -204,9 +236,9 @@ def obligations(ctx: Ctx):
         contract_ob(f"{P}.P4.nocontent", "parse_literal_zone without a content token: empty zone, not absent", lambda: ZC.PARSE_ZONE_NO_CONTENT, "contracts.zones:PARSE_ZONE_NO_CONTENT"),
     ]
     for i, c in enumerate(ZC.EMIT_ASSIGNMENT_ZONE):
-        obs.append(contract_ob(f"{P}.P5.assign{i}", f"emit_assignment on a zone value ({c.label}): exact text, content un-indented and unescaped", lambda i=i: ZC.EMIT_ASSIGNMENT_ZONE[i], f"contracts.zones:EMIT_ASSIGNMENT_ZONE[{i}]"))
+        obs.append(contract_ob(f"{P}.P5.assign{i}", f"emit_assignment on a zone value ({c.label}): exact text, content un-indented and unescaped", lambda i=i: ZC.EMIT_ASSIGNMENT_ZONE[i], f"contracts.zones:EMIT_ASSIGNMENT_ZONE[{i}]", probe=probe_zone_emission, probe_ref="props.C05:probe_zone_emission"))
     for i, c in enumerate(ZC.EMIT_BLOCK_BARE_ZONE):
-        obs.append(contract_ob(f"{P}.P5.bare{i}", f"emit_block on a bare zone child ({c.label}): exact text", lambda i=i: ZC.EMIT_BLOCK_BARE_ZONE[i], f"contracts.zones:EMIT_BLOCK_BARE_ZONE[{i}]"))
+        obs.append(contract_ob(f"{P}.P5.bare{i}", f"emit_block on a bare zone child ({c.label}): exact text", lambda i=i: ZC.EMIT_BLOCK_BARE_ZONE[i], f"contracts.zones:EMIT_BLOCK_BARE_ZONE[{i}]", probe=probe_zone_emission, probe_ref="props.C05:probe_zone_emission"))
     obs += [
         contract_ob(f"{P}.P6.value", "repair_value returns a literal zone unchanged and logs nothing", lambda: RC.REPAIR_VALUE_ZONE, "contracts.repair:REPAIR_VALUE_ZONE"),
         contract_ob(f"{P}.P6.node", "_repair_ast_node leaves zone-valued assignments untouched", lambda: RC.REPAIR_NODE, "contracts.repair:REPAIR_NODE"),
